@@ -193,8 +193,8 @@ def runModel (dest : String) (network : Bool) (doc : Bytes) : Option String :=
   | "fix2" => some (showRun showVal (decodeTy network false fix2Ty s))
   | _ => none
 
-/-- The oracle. `prop` is "C01" or "C03" (prefix of the deviation marker). -/
-def decVerdict (prop dest fmt : String) (doc : Bytes) (obs : String) : Verdict :=
+/-- The oracle. `prop` is "C01" or "C03" (unused since the long-string marker was dropped; kept for callers). -/
+def decVerdict (_prop dest fmt : String) (doc : Bytes) (obs : String) : Verdict :=
   let network := fmt == "net"
   match runModel dest network doc with
   | none => { model := "bad-dest" }
@@ -208,13 +208,14 @@ def decVerdict (prop dest fmt : String) (doc : Bytes) (obs : String) : Verdict :
         -- not a well-formed document followed by anything: truncated, negative length, unknown tag, End at the root …
         { model, spec := if isOk then some "ill-formed or truncated document reported as decoded" else none }
       | some (name, t, rest) =>
-        let long := name.length ≥ 32768 || hasLongString t
-        let markers := if long then [prop ++ ".string-over-32767"] else []
+        -- strings, keys and names of 2^15 … 2^16−1 bytes are legal NBT but outside the property's quantifier
+        -- ("0..32767-byte strings"): no demand there, only the comparison with the model
+        if name.length ≥ 32768 || hasLongString t then { model } else
         match specValue dest t with
         | some v =>
           let want := s!"ok name={hexOfBytes name} v={v} left={rest.length}"
           if obs == want then { model } else
-            { model, spec := some ("well-formed document: expected " ++ (want.take 200).toString), markers }
+            { model, spec := some ("well-formed document: expected " ++ (want.take 200).toString) }
         | none =>
           { model, spec := if isOk then some "document does not fit the destination but was reported as decoded" else none }
 
